@@ -377,7 +377,7 @@ def unit_histories(ctx):
         cls = f"{'Field' if kind == 'field' else 'Mesh' if kind.startswith('mesh') else 'Region'}.{ev[0]}"
         pre = build(hist)
         snap0 = C.snap(pre)
-        coh = th or len(hist) == 0  # quick: coherence of derived quantities on the first step of every history (thorough: every step)
+        coh = len(hist) <= (1 if th else 0)  # coherence of derived quantities on the first step (thorough: first two steps) of every history
         step_model = Model(pre).step(ev)  # exact image of the ACTUAL pre-state
         acc_model = model_of(hist + (ev,))  # exact image of the initial state through the whole history
         if form == "copy":
